@@ -66,6 +66,9 @@ type plan struct {
 	ZeroReads int  // number of reads that return 0,nil
 	WriteFail bool // C06: tty writes fail from the moment the shutdown call starts
 	Shutdown  shutdownPlan
+	// FiniHow (C05): how the final Fini finds the screen: 0 running,
+	// 1 suspended, 2 suspended after a Resume whose tty start failed
+	FiniHow int
 }
 
 type shutdownPlan struct {
@@ -190,7 +193,7 @@ func drawPlan(t *rapid.T, mode string) *plan {
 	if mode == "C06" {
 		sd := &p.Shutdown
 		sd.Kind = rapid.SampledFrom([]string{"fini", "fini", "suspend", "suspend-resume-fini", "fini2", "fini-concurrent", "suspend-resume-suspend",
-			"suspend||resume", "suspend||suspend", "resume||fini", "startfail-resume-fini"}).Draw(t, "sdkind")
+			"suspend||resume", "suspend||suspend", "resume||fini", "startfail-resume-fini", "suspend-fini", "startfail-fini", "fini||fini-inert"}).Draw(t, "sdkind")
 		sd.FromSecond = rapid.Bool().Draw(t, "sdsecond")
 		n := rapid.IntRange(0, 30).Draw(t, "nextra")
 		for j := 0; j < n; j++ {
@@ -210,6 +213,7 @@ func drawPlan(t *rapid.T, mode string) *plan {
 		p.WriteFail = rapid.IntRange(0, 7).Draw(t, "writefail") == 0
 	} else {
 		p.Shutdown.Kind = "fini"
+		p.FiniHow = rapid.SampledFrom([]int{0, 0, 0, 1, 1, 2}).Draw(t, "finihow")
 	}
 	return p
 }
@@ -438,7 +442,13 @@ func (w *ew) posterActor(idx int) {
 			w.Scr.PostEventWait(ev)
 			w.postRes[idx] = append(w.postRes[idx], true)
 		} else {
+			me := w.S.Running()
+			parks := me.Parks
 			err := w.Scr.PostEvent(ev)
+			if me.Parks != parks {
+				// PostEvent never waits: it enqueues or reports a full queue
+				w.Failf("C05/post-blocked", "PostEvent of poster %d blocked (it must either enqueue or return ErrEventQFull at once); it returned %v", idx, err)
+			}
 			if err != nil && err != tcell.ErrEventQFull {
 				w.Failf("C05/post-full", "PostEvent returned unexpected error %v", err)
 			}
@@ -748,7 +758,16 @@ func (w *ew) phaseDrain() {
 		}
 	}
 	// Fini: the drainer must get nil / a closed channel.
-	fin := s.Spawn("finisher", func() { w.Scr.Fini() })
+	fin := s.Spawn("finisher", func() {
+		if w.p.FiniHow >= 1 {
+			_ = w.Scr.Suspend()
+		}
+		if w.p.FiniHow == 2 {
+			w.Tty.StartFailAt = w.Tty.Starts + 1
+			_ = w.Scr.Resume()
+		}
+		w.Scr.Fini()
+	})
 	s.Run()
 	if !fin.Done() {
 		w.Failf("C06/deadlock/fini", "Fini did not return: %v", s.Blocked())
@@ -864,6 +883,42 @@ func (w *ew) shutdownActor() {
 		}
 		w.call("fini", w.Scr.Fini)
 		w.finied = true
+	case "suspend-fini":
+		// Fini finds the screen suspended
+		w.call("suspend", func() { _ = w.Scr.Suspend() })
+		w.call("fini", w.Scr.Fini)
+		w.finied = true
+	case "startfail-fini":
+		// Fini finds the screen suspended after a Resume that failed
+		w.call("suspend", func() { _ = w.Scr.Suspend() })
+		w.Tty.StartFailAt = w.Tty.Starts + 1
+		w.call("resume", func() { _ = w.Scr.Resume() })
+		w.call("fini", w.Scr.Fini)
+		w.finied = true
+	case "fini||fini-inert":
+		// two overlapping Fini calls: whichever returns first, the screen
+		// is finalized at that moment (a second Fini waits for the first)
+		firstBack := ""
+		check := func(who string) {
+			if firstBack != "" {
+				return
+			}
+			firstBack = who
+			for _, g := range w.LibGoroutines() {
+				if !g.Done() {
+					w.Failf("C06/leak", "Fini (%s of two overlapping calls) returned while library goroutine %s is still alive: %v", who, g.Name, w.S.Blocked())
+				}
+			}
+			if !w.Tty.Closed || w.Tty.Started {
+				w.Failf("C06/double-fini", "Fini (%s of two overlapping calls) returned before the tty was stopped and closed (started=%v closed=%v)", who, w.Tty.Started, w.Tty.Closed)
+			}
+		}
+		other := false
+		simrt.Go("fini-b", func() { w.Scr.Fini(); check("the second"); other = true })
+		w.call("fini", w.Scr.Fini)
+		check("the first")
+		w.finied = true
+		simrt.Wait("fini-b.join", func() bool { return other })
 	case "suspend-resume-suspend":
 		w.call("suspend", func() { _ = w.Scr.Suspend() })
 		w.call("resume", func() { w.resumeErr = w.Scr.Resume() })
